@@ -9,6 +9,7 @@
 //         both         cancel(R) || bind C under P || bind D under R
 //         two_cancel   cancel(R) || cancel(R) || bind C under P
 //         mid          cancel(P) || bind C under P || bind D under R    (D and R must stay clean)
+//         mid_reset    same after P.reset() (P keeps its children from an earlier round)
 //         destroy      cancel(R) || bind C under P || destroy sibling X (bound under P in setup)
 //         deep         cancel(R) || bind C under P || bind E under C    (E binds after C; chain of fresh contexts)
 #include "governor.h"
@@ -46,6 +47,8 @@ static void scenario() {
         if (!R.cancel_group_execution()) vf_fail("cancel(R) returned false"); if (!J->is_group_execution_cancelled()) vf_fail("descendant J of R not cancelled"); J->reset(); if (J->is_group_execution_cancelled()) vf_fail("reset did not clear J");
         canceller(S, res1); binder(C, P); expC = true; expP = expR = true; X = (delete X, J); }
     else if (streq(k, "mid")) { canceller(P, res1); binder(C, P); binder(D, R); useD = true; expD = false; expR = false; }
+    else if (streq(k, "mid_reset")) { // P (which has the bound children X and I) was reset before - e.g. by the wait of an earlier round - and is used again with the same children: cancel(P) must still reach them
+        P.reset(); canceller(P, res1); binder(C, P); binder(D, R); useD = true; expD = false; expR = false; }
     else if (streq(k, "destroy")) { canceller(R, res1); binder(C, P); init.push_back([&] { r1::thread_data* t = as(nullptr); restore(t); }); body.push_back([&] { delete X; X = nullptr; }); }
     else if (streq(k, "deep")) { canceller(R, res1); binder(C, P);
         init.push_back([&] { r1::thread_data* t = as(nullptr); restore(t); }); body.push_back([&] { while (C.my_state.load(std::memory_order_acquire) != ctx_t::state::bound) vf_yield(); bind_under(E, C); }); useE = expE = true; }
@@ -60,13 +63,14 @@ static void scenario() {
     // all cancel calls and bindings have completed
     auto chk = [&](ctx_t& c, bool expect, const char* name) { bool is = c.is_group_execution_cancelled(); if (is != expect) vf_fail("%s is %scancelled after all cancel calls and bindings completed (expected %s)", name, is ? "" : "not ", expect ? "cancelled" : "clean"); };
     chk(R, expR, "R (root)"); chk(P, expP, "P (bound child)"); if (bindC) chk(C, expC, "C (bound beneath P concurrently)"); if (useD) chk(D, expD, "D (bound beneath R concurrently)"); if (useE) chk(E, expE, "E (bound beneath C concurrently)");
+    if (X && !streq(k, "reset_below") && !streq(k, "destroy")) chk(*X, expP, "X (bound beneath P before the window, i.e. a child from an earlier use of P)");
     if (streq(k, "reset_below")) { if (X->is_group_execution_cancelled()) vf_fail("J (child of P, reset after the cancellation of R) was marked again by the cancellation of the unrelated context S"); }
     bool sCancelled = streq(k, "prebind") || streq(k, "reset_below"); chk(S, sCancelled, "S (unrelated root)"); chk(Q, sCancelled || streq(k, "leaf_cancel"), "Q (child of S)");
     if (streq(k, "fresh_cancel")) { if (!E.is_group_execution_cancelled()) vf_fail("the fresh context is not cancelled after two cancel calls"); } chk(I, false, "I (isolated context created under P)");
     if (streq(k, "two_cancel") || streq(k, "leaf_cancel") || streq(k, "fresh_cancel")) { if (res1 == res2) vf_fail("concurrent cancel calls on one context returned %d and %d", res1, res2); } else if (!res1) vf_fail("the only cancel call returned false");
     // stays cancelled until reset; reset clears only that context
     if (streq(k, "reset_below")) { vf_outcome("r=%d", res1); delete X; return; }
-    ctx_t& tgt = streq(k, "mid") ? P : streq(k, "prebind") ? S : streq(k, "leaf_cancel") ? Q : streq(k, "fresh_cancel") ? E : R; if (tgt.cancel_group_execution()) vf_fail("a second cancel of a cancelled context returned true");
+    ctx_t& tgt = streq(k, "mid") || streq(k, "mid_reset") ? P : streq(k, "prebind") ? S : streq(k, "leaf_cancel") ? Q : streq(k, "fresh_cancel") ? E : R; if (tgt.cancel_group_execution()) vf_fail("a second cancel of a cancelled context returned true");
     tgt.reset(); if (tgt.is_group_execution_cancelled()) vf_fail("reset did not clear the context");
     vf_outcome("r=%d%d", res1, res2);
     if (X) delete X;
